@@ -341,6 +341,10 @@ var concParseInputs = []string{
 	"<div>\nraw\n</div>\n\npara\\\nbreak\n",
 	"```\nfence\n```\n\n***\n\nsetext\n---\n",
 	"a &amp; b\x00c\r\nd\n",
+	"<span title=\"x\">\ntext\n\n</em>\n",
+	"<custom-element a=b>\n\n> <b\n> c=\"d\">\n",
+	"1. one\n2. two\n\n   three\n\t- four\n",
+	"![i *e*](/s \"t\") <http://x.y> <m@x.y>\n",
 }
 
 // opTuples: operation tuples whose callers may run concurrently per C19: parses of distinct inputs, and
@@ -733,6 +737,20 @@ func concRace(res *Result, dur time.Duration) *Result {
 	var ops []concOp
 	for _, t := range tuples {
 		ops = append(ops, t...)
+	}
+	// every spec example: parsed (both routes) by several goroutines at once, and its tree rendered / formatted / walked
+	for i, ex := range specExamples() {
+		in := []byte(ex)
+		ops = append(ops, copParseMem(in))
+		if i%3 == 0 {
+			ops = append(ops, copParseStream(in, 1+i%9))
+		}
+		if i%4 == 0 {
+			d := newConcDoc(ex)
+			worldDocs = append(worldDocs, d)
+			r := &commonmark.HTMLRenderer{ReferenceMap: d.refs, FilterTag: concPreds["gfm"], SoftBreakBehavior: commonmark.SoftBreakBehavior(i % 3)}
+			ops = append(ops, copRender(d, r, "spec-gfm"), copFormat(d, i%8 == 0), copWalk(d))
+		}
 	}
 	want := make([]int, len(ops))
 	for i, op := range ops {
